@@ -1296,7 +1296,11 @@ package machine
 //@   props C06 C20 C12
 //@   abstracts ctx.Err() is an opaque interface call
 //@   requires inv:   SubsInv(sm) && unlocked(sm.Mx)
+//@   requires listed: WQListed(sm)
 //@   assigns  sm.whenQuery, sm.whenQueryCtx, sm.Mx
+//@   ensures  listed: WQListed(sm)
+//@   ensures  registered: ch != sm.Closed ==> len(sm.whenQuery) == old(len(sm.whenQuery)) + 1 && sm.whenQuery[len(sm.whenQuery) - 1].ch == ch && !closed(ch)
+//@   ensures  kept:   forall i int :: 0 <= i && i < old(len(sm.whenQuery)) ==> sm.whenQuery[i] == old(sm.whenQuery)[i]
 //@   ensures  locks: unlocked(sm.Mx)
 
 //@ func (sm *Subscriptions) WhenQueue(tick Result) (ch <-chan struct{})
@@ -1337,13 +1341,38 @@ package machine
 
 // processWhenQueryCtx drops the query bindings whose context has expired: only
 // the query indexes may change.
+// WQListed: every binding reachable from the context index is in the query list
+// (which is duplicate-free), each context list is duplicate-free, and no binding
+// sits in two context lists.
+//@ pred WQListed(sm *Subscriptions) := nodup(sm.whenQuery) && !isnil(sm.whenQueryCtx)
+//@    && (forall c context.Context, i int :: 0 <= i && i < len(sm.whenQueryCtx[c]) ==> sm.whenQueryCtx[c][i] != nil && mem(sm.whenQuery, sm.whenQueryCtx[c][i]))
+//@    && (forall c context.Context :: nodup(sm.whenQueryCtx[c]))
+//@    && (forall c1, c2 context.Context, i, j int :: c1 != c2 && 0 <= i && i < len(sm.whenQueryCtx[c1]) && 0 <= j && j < len(sm.whenQueryCtx[c2]) ==> sm.whenQueryCtx[c1][i] != sm.whenQueryCtx[c2][j])
+
+//@ func (sm *Subscriptions) gcWhenQueryBinding(binding *whenQueryBinding, gcCtx bool)
+//@   props C06 C12
+//@   requires held:   locked(sm.Mx)
+//@   requires listed: binding != nil && !isnil(sm.whenQueryCtx) && nodup(sm.whenQuery) && mem(sm.whenQuery, binding)
+//@   assigns  sm.whenQuery, sm.whenQueryCtx
+//@   ensures  removed: !mem(sm.whenQuery, binding) && nodup(sm.whenQuery)
+//@   ensures  others:  forall b *whenQueryBinding :: b != binding ==> (mem(sm.whenQuery, b) <==> old(mem(sm.whenQuery, b)))
+//@   ensures  ctx:     !gcCtx ==> sm.whenQueryCtx == old(sm.whenQueryCtx)
+
 //@ func (sm *Subscriptions) processWhenQueryCtx() (ret []chan struct{})
 //@   props C06 C12
+//@   abstracts ctx.Err() is an opaque interface call
 //@   requires held: locked(sm.Mx)
-//@   abstracts ctx.Err() is an opaque interface call; gcWhenQueryBinding is inlined
 //@   requires inv: SubsInv(sm)
-//@   requires nn:  (forall c context.Context, i int :: has(sm.whenQueryCtx, c) && 0 <= i && i < len(sm.whenQueryCtx[c]) ==> sm.whenQueryCtx[c][i] != nil)
+//@   requires listed: WQListed(sm)
 //@   assigns  sm.whenQueryCtx, sm.whenQuery
+//@   loop 1 invariant nn: !isnil(sm.whenQueryCtx) && nodup(sm.whenQuery)
+//@   loop 1 invariant listed: forall c context.Context, i int :: !visited1[c] && 0 <= i && i < len(old(sm.whenQueryCtx)[c]) ==> mem(sm.whenQuery, old(sm.whenQueryCtx)[c][i])
+//@   loop 1 invariant same: forall c context.Context :: !visited1[c] ==> sm.whenQueryCtx[c] == old(sm.whenQueryCtx)[c]
+//@   loop 2 invariant nn: !isnil(sm.whenQueryCtx) && nodup(sm.whenQuery)
+//@   loop 2 invariant cur: bindings == old(sm.whenQueryCtx)[ctx] && !visited1[ctx]
+//@   loop 2 invariant same: forall c context.Context :: !visited1[c] && c != ctx ==> sm.whenQueryCtx[c] == old(sm.whenQueryCtx)[c]
+//@   loop 2 invariant rest: forall j int :: idx2 <= j && j < len(bindings) ==> mem(sm.whenQuery, bindings[j])
+//@   loop 2 invariant listed: forall c context.Context, i int :: !visited1[c] && c != ctx && 0 <= i && i < len(old(sm.whenQueryCtx)[c]) ==> mem(sm.whenQuery, old(sm.whenQueryCtx)[c][i])
 
 //@ pred WhenClosed(sm *Subscriptions) := forall s string, i int :: has(sm.when, s) && 0 <= i && i < len(sm.when[s]) ==> closed(sm.when[s][i].Ch)
 //@ pred WhenTimeClosed(sm *Subscriptions) := forall s string, i int :: has(sm.whenTime, s) && 0 <= i && i < len(sm.whenTime[s]) ==> closed(sm.whenTime[s][i].Ch)
